@@ -444,6 +444,19 @@ func (m memberList) emptyMember(t int) geom.Geometry {
 func histSteps(c Case) []Event {
 	g0, h := mustWKT(c.str("w")), mustWKT(c.str("other"))
 	ml := toMembers(g0)
+	// nest: the value under observation is the member list wrapped once or twice into a GeometryCollection, so that the
+	// inserted empty members sit inside a nested collection next to non-empty ones
+	nest := 0
+	if _, ok := c["nest"]; ok {
+		nest = c.num("nest")
+	}
+	build := func() geom.Geometry {
+		g := ml.build()
+		for k := 0; k < nest; k++ {
+			g = geom.NewGeometryCollection([]geom.Geometry{g}).AsGeometry()
+		}
+		return g
+	}
 	st := &obsState{}
 	var steps []Event
 	record := func(act string, g geom.Geometry) bool {
@@ -459,7 +472,7 @@ func histSteps(c Case) []Event {
 		steps = append(steps, ev)
 		return ev["panic"] == ""
 	}
-	if !record("start", ml.build()) {
+	if !record("start", build()) {
 		return steps
 	}
 	var inserted []int // positions of inserted empties (for removal)
@@ -476,7 +489,7 @@ func histSteps(c Case) []Event {
 				}
 			}
 			inserted = append(inserted, p)
-			if !record(fmt.Sprintf("InsertEmpty(%d,%s)", p, e.AsText()), ml.build()) {
+			if !record(fmt.Sprintf("InsertEmpty(%d,%s)", p, e.AsText()), build()) {
 				break
 			}
 		} else {
@@ -489,7 +502,7 @@ func histSteps(c Case) []Event {
 					inserted[i]--
 				}
 			}
-			if !record(fmt.Sprintf("RemoveEmpty(%d)", p), ml.build()) {
+			if !record(fmt.Sprintf("RemoveEmpty(%d)", p), build()) {
 				break
 			}
 		}
@@ -512,7 +525,11 @@ func emptyGen(r *rand.Rand, n int, tier string, emit func(Case)) {
 		for k, m := 0, 1+r.Intn(5); k < m; k++ {
 			ops = append(ops, []interface{}{r.Intn(3) / 2, r.Intn(8), r.Intn(9)})
 		}
-		emit(Case{"kind": "hist", "w": g.AsText(), "other": l.any(6).AsText(), "ops": ops})
+		c := Case{"kind": "hist", "w": g.AsText(), "other": l.any(6).AsText(), "ops": ops, "nest": []int{0, 0, 1, 2}[r.Intn(4)]}
+		if r.Intn(6) == 0 {
+			c["other"] = []string{"POINT EMPTY", "GEOMETRYCOLLECTION EMPTY", "GEOMETRYCOLLECTION(POLYGON EMPTY)", "LINESTRING EMPTY"}[r.Intn(4)]
+		}
+		emit(c)
 	}
 }
 
